@@ -130,6 +130,19 @@ PROPS = {
                        "across layouts as a whole; keyword-like prefixes of words (`truex`, `NULLx`) are noted, not claimed.",
         "assumptions": ["abortable_parser's text_token! consumes exactly the literal it is given"],
     },
+    "C06": {
+        "module": "c06",
+        "explanation": "R18: the four bound comparisons of ConstraintVal::check are >= against field 0 and <= against field 1 (read "
+                       "from the MIR of the bound closures, operands identified by provenance), reached only for candidates of the "
+                       "bound's type, all arms tried; the six ConstraintBound aggregates of op_build_constraint take field 0 from the "
+                       "first and field 1 from the second consumed value, pop/next counts per arm type agree, the translator pushes "
+                       "start before end. R19: CheckConstraint between value and Bind, failure is an error, Ok-without-check only on "
+                       "the two listed paths, checker records a narrow TypeErr and a non-empty error stack stops the build. R20: named "
+                       "constraints go through the same lowering and are expanded before comparison. R66: subset test in both "
+                       "directions. Not decided: the shape-compatibility relation (narrow) itself; recursive constraints are outside "
+                       "the property's quantifier.",
+        "assumptions": ["Val::equal is structural equality (unit-tested)"],
+    },
 }
 
 
